@@ -13,9 +13,13 @@ from ..model import AnalysisError, FuncInfo, Repo, ancestors, chain, const_value
 LEVEL = "other"
 EXPLANATION = (
     "Every function is analysed through a behaviour-equivalent *view* built from the source as written: private helpers "
-    "(also generator helpers and dispatch tables) are inlined, decision values are propagated into the code that acts on "
-    "them, constant tests are folded.  On the view of gather_token: keeping a token in the waiting area and appending it "
-    "are dominated by a truthy token.verify(self.public_key); appending additionally requires the parent to be the genesis "
+    "(also generator helpers, dispatch tables, private callable classes, helpers that return from inside a loop) are inlined, "
+    "decision values (constants, enum members, NamedTuple / dataclass results) are propagated into the code that acts on "
+    "them, `match` is read as the if/elif chain it executes, standard-library callables (attrgetter, methodcaller, "
+    "itemgetter, partial, operator.*, filter/map/filterfalse, contextlib.suppress) are written out, constant tests are "
+    "folded.  On the view of gather_token: keeping a token in the waiting area and appending it "
+    "are dominated by a truthy token.verify(self.public_key); a waiting token takes one slot however often it is offered "
+    "(keyed store, or an un-keyed insertion under a `not in` test); appending additionally requires the parent to be the genesis "
     "hash or a contained token and the token not to be present yet, and is always followed by a complete scan of the waiting "
     "area that re-offers every waiting child through gather_token (no early exit, woken tokens leave the waiting area) so "
     "forks do not depend on arrival order; elements is written only from add/add_by_hash (own key), gather_token and the "
@@ -94,6 +98,11 @@ def _def_value(fi: FuncInfo, n: ast.Name) -> ast.AST | None:
     if r is None or len(r) != 1:
         return None
     s, v, k = r[0]
+    if v is not None and k is not None and isinstance(strip_cast(v), (ast.Tuple, ast.List)) and not any(isinstance(x, ast.Starred) for x in strip_cast(v).elts) \
+            and isinstance(k, int) and k < len(strip_cast(v).elts) and isinstance(s, ast.Assign) and len(s.targets) == 1 \
+            and isinstance(s.targets[0], (ast.Tuple, ast.List)) and len(s.targets[0].elts) == len(strip_cast(v).elts) \
+            and not ({x.id for t in s.targets[0].elts for x in ast.walk(t) if isinstance(x, ast.Name)} & {x.id for x in ast.walk(v) if isinstance(x, ast.Name)}):
+        return strip_cast(v).elts[k]             # `a, b = x, y` (no swap): b is y
     return v if v is not None and k is None else None
 
 
@@ -162,6 +171,59 @@ def _sha3_arg(e: ast.AST | None) -> ast.AST | None:
     return None
 
 
+def _hashed(fi: FuncInfo, e: ast.AST | None) -> ast.AST | None:
+    """X such that e evaluates to sha3_256(X).digest(): the one-shot call, or a hash object that is created, fed with `h.update(..)`
+    and finalised by statements of the function's top-level body (executed exactly once, in that order)"""
+    if e is None:
+        return None
+    r = _sha3_arg(_expand(fi, e))
+    if r is not None:
+        return r
+    x = strip_cast(e)
+    for _ in range(3):
+        if isinstance(x, ast.Name):
+            d = _def_value(fi, x)
+            if d is None:
+                return None
+            x = strip_cast(d)
+    if not (isinstance(x, ast.Call) and isinstance(x.func, ast.Attribute) and x.func.attr == "digest" and not x.args and isinstance(x.func.value, ast.Name)):
+        return None
+    h = x.func.value
+    ds = local_defs(fi, h.id)
+    if len(ds) != 1 or ds[0][1] is None or ds[0][2] is not None or is_param(fi, h.id):
+        return None
+    ctor = strip_cast(ds[0][1])
+    first = None
+    if isinstance(ctor, ast.Call) and (chain(ctor.func) or "").split(".")[-1] == "sha3_256" and len(ctor.args) <= 1 and not ctor.keywords:
+        first = ctor.args[0] if ctor.args else None
+    elif isinstance(ctor, ast.Call) and chain(ctor.func) == "hashlib.new" and 1 <= len(ctor.args) <= 2 and const_value(ctor.args[0]) == "sha3_256" and not ctor.keywords:
+        first = ctor.args[1] if len(ctor.args) == 2 else None
+    else:
+        return None
+    body = list(fi.node.body)
+    top = {id(st): i for i, st in enumerate(body)}
+    d_at, u_at = top.get(id(ds[0][0])), top.get(id(enclosing_stmt(x)))
+    if d_at is None or u_at is None or not d_at < u_at:
+        return None
+    fed: list[tuple[int, ast.AST]] = []
+    for n in ast.walk(fi.node):
+        if isinstance(n, ast.Name) and n.id == h.id and isinstance(n.ctx, ast.Load) and n is not h:
+            at = parent(n)
+            call = parent(at) if isinstance(at, ast.Attribute) else None
+            st = parent(call) if call is not None else None
+            if not (isinstance(at, ast.Attribute) and at.attr == "update" and isinstance(call, ast.Call) and call.func is at and len(call.args) == 1 and not call.keywords
+                    and isinstance(st, ast.Expr) and id(st) in top and d_at < top[id(st)] < u_at):
+                return None
+            fed.append((top[id(st)], call.args[0]))
+    parts = ([first] if first is not None else []) + [a for i, a in sorted(fed, key=lambda t: t[0])]
+    if not parts:
+        return None
+    acc = _expand(fi, parts[0])
+    for a in parts[1:]:
+        acc = ast.BinOp(left=acc, op=ast.Add(), right=_expand(fi, a))
+    return ast.fix_missing_locations(ast.copy_location(acc, x))
+
+
 def _concat(e: ast.AST | None) -> str | None:
     """`a + b + c` / `b"".join((a, b, c))` / `b"".join([a, b, c])` as the canonical text `a + b + c`"""
     if e is None:
@@ -175,6 +237,8 @@ def _concat(e: ast.AST | None) -> str | None:
         if isinstance(x, ast.Call) and isinstance(x.func, ast.Attribute) and x.func.attr == "join" and isinstance(x.func.value, ast.Constant) \
                 and x.func.value.value in (b"", "") and len(x.args) == 1 and isinstance(x.args[0], (ast.Tuple, ast.List)) and not x.keywords:
             return all(go(y) for y in x.args[0].elts)
+        if isinstance(x, ast.Constant) and x.value in (b"", "") and isinstance(x.value, (bytes, str)):
+            return True                  # `b"" + a` is `a`
         parts.append(norm(x))
         return True
     return " + ".join(parts) if go(e) and parts else None
@@ -475,6 +539,8 @@ class _Deep:
         if not isinstance(call, ast.Call) or getattr(call, "_noinl", False):
             return None
         f = call.func
+        if isinstance(f, ast.Call):
+            return self._callable_helper(call)
         h = recv = None
         explicit = closure = False
         if isinstance(f, ast.Attribute) and isinstance(f.value, ast.Name) and self.cls is not None:
@@ -500,10 +566,15 @@ class _Deep:
             return None
         decs = h.decorator_names()
         kind = "function" if h.cls is None else "static" if "staticmethod" in decs else "classmethod" if "classmethod" in decs else "method"
-        if any(d not in ("staticmethod", "classmethod") for d in decs):
+        memo = [d for d in decs if d.split(".")[-1] in ("lru_cache", "cache")]
+        if memo and not (kind in ("function", "static") and self._memo_transparent(h)):
+            return None
+        if any(d not in ("staticmethod", "classmethod") and d not in memo for d in decs):
             return None
         a = h.node.args
-        if a.vararg or a.kwarg or h.is_async:
+        if a.vararg or h.is_async:
+            return None
+        if a.kwarg and not self._kwarg_passthrough(h):
             return None
         if any(isinstance(x, (ast.Global, ast.Nonlocal, ast.AsyncFunctionDef, ast.ClassDef)) for s in h.node.body for x in ast.walk(s)):
             return None
@@ -516,6 +587,110 @@ class _Deep:
         elif explicit:
             recv = f.value if kind == "classmethod" else None      # Class._m(self, x): the receiver is the first argument
         return h, recv
+
+    @staticmethod
+    def _kwarg_passthrough(h: FuncInfo) -> bool:
+        """the `**kw` parameter is only ever handed on as `**kw` in calls: the extra keywords of a call site can be written there"""
+        name = h.node.args.kwarg.arg
+        passed = {id(k.value) for s_ in h.node.body for x in ast.walk(s_) if isinstance(x, ast.Call) for k in x.keywords if k.arg is None and isinstance(k.value, ast.Name)}
+        if any(isinstance(x, (ast.FunctionDef, ast.Lambda)) for s_ in h.node.body for x in ast.walk(s_)):
+            return False
+        return all(id(x) in passed for s_ in h.node.body for x in ast.walk(s_) if isinstance(x, ast.Name) and x.id == name)
+
+    def _memo_transparent(self, h: FuncInfo) -> bool:
+        """a memoised function that computes a value object from its parameters alone (`return struct.Struct(f"..{n}s")`): the cache cannot be observed"""
+        body = [s_ for s_ in h.node.body if not _is_doc(s_)]
+        if len(body) != 1 or not isinstance(body[0], ast.Return) or body[0].value is None:
+            return False
+        ok_names = set(h.params()) | {k for k, v in h.module.imports.items() if v[1] is None}
+        for x in ast.walk(body[0].value):
+            if isinstance(x, ast.Name) and x.id not in ok_names:
+                return False
+            if isinstance(x, (ast.Await, ast.Yield, ast.YieldFrom, ast.NamedExpr, ast.Lambda, *_COMPS)):
+                return False
+            if isinstance(x, ast.Call) and not ((chain(x.func) or "") in ("struct.Struct", "str", "int", "len") or
+                                                (isinstance(x.func, ast.Attribute) and x.func.attr == "format" and isinstance(x.func.value, ast.Constant))):
+                return False
+        return True
+
+    def _callable_helper(self, call: ast.Call):
+        """`_C(a, b)(x)` for a private class whose constructor only stores its parameters: `__call__` as a function of (a, b, x)"""
+        cc = self._callable_class(call.func)
+        if cc is None:
+            return None
+        c, info = cc
+        m = c.methods["__call__"]
+        name = f"{c.name}.__call__"
+        a = m.node.args
+        if name in self.stop or name in getattr(call, "_stk", ()) or a.vararg or a.kwarg or m.is_async or m.node.decorator_list or not (a.posonlyargs + a.args):
+            return None
+        if any(isinstance(x, (ast.Global, ast.Nonlocal, ast.FunctionDef, ast.AsyncFunctionDef, ast.ClassDef)) for s_ in m.node.body for x in ast.walk(s_)):
+            return None
+        if any(isinstance(x, ast.Call) and isinstance(x.func, ast.Name) and x.func.id in ("super", "locals", "vars") for s_ in m.node.body for x in ast.walk(s_)):
+            return None
+        ctor, outer = call.func, call
+        if any(isinstance(x, ast.Starred) for x in [*ctor.args, *outer.args]) or any(k.arg is None for k in [*ctor.keywords, *outer.keywords]):
+            return None
+        me_ = (a.posonlyargs + a.args)[0].arg
+        own = [p.arg for p in (a.posonlyargs + a.args)[1:]] + [p.arg for p in a.kwonlyargs]
+        used = {x.id for s_ in m.node.body for x in ast.walk(s_) if isinstance(x, ast.Name)} | set(own)
+        pname: dict[str, str] = {}
+        for p, d in info["params"]:
+            new = p
+            while new in used or new in pname.values():
+                new += "_f"
+            pname[p] = new
+        body = _cl([s_ for s_ in m.node.body if not _is_doc(s_)]) or [ast.Pass()]
+        ok = True
+
+        class R(ast.NodeTransformer):
+            def visit_Attribute(self, n):  # noqa: N802
+                nonlocal ok
+                if isinstance(n.value, ast.Name) and n.value.id == me_:
+                    if isinstance(n.ctx, ast.Load) and n.attr in info["attrs"]:
+                        return ast.copy_location(ast.Name(id=pname[info["attrs"][n.attr]], ctx=ast.Load()), n)
+                    ok = False
+                    return n
+                return self.generic_visit(n)
+
+            def visit_Name(self, n):  # noqa: N802
+                nonlocal ok
+                if n.id == me_:
+                    ok = False
+                return n
+        body = [R().visit(s_) for s_ in body]
+        if not ok:
+            return None
+        # bind the constructor's and the call's arguments by name, in evaluation order
+        kws: list[ast.keyword] = []
+        cparams = [p for p, d in info["params"]]
+        if len(ctor.args) > len(cparams) or len(outer.args) > len((a.posonlyargs + a.args)[1:]):
+            return None
+        for p, x in zip(cparams, ctor.args):
+            kws.append(ast.keyword(arg=pname[p], value=x))
+        for k in ctor.keywords:
+            if k.arg not in cparams or any(q.arg == pname[k.arg] for q in kws):
+                return None
+            kws.append(ast.keyword(arg=pname[k.arg], value=k.value))
+        for p, x in zip([q.arg for q in (a.posonlyargs + a.args)[1:]], outer.args):
+            kws.append(ast.keyword(arg=p, value=x))
+        for k in outer.keywords:
+            if k.arg not in own or any(q.arg == k.arg for q in kws):
+                return None
+            kws.append(ast.keyword(arg=k.arg, value=k.value))
+        pos_own = [q.arg for q in (a.posonlyargs + a.args)[1:]]
+        own_defaults: dict[str, ast.AST | None] = {q: None for q in own}
+        for q, d in zip(pos_own[len(pos_own) - len(a.defaults):] if a.defaults else [], a.defaults):
+            own_defaults[q] = d
+        for q, d in zip(a.kwonlyargs, a.kw_defaults):
+            own_defaults[q.arg] = d
+        names = [pname[p] for p in cparams] + own
+        defaults = [d for p, d in info["params"]] + [own_defaults[q] for q in own]
+        args = ast.arguments(posonlyargs=[], args=[], vararg=None, kwonlyargs=[ast.arg(arg=n_, annotation=None) for n_ in names], kw_defaults=defaults, kwarg=None, defaults=[])
+        node = ast.copy_location(ast.FunctionDef(name=name, args=args, body=body, decorator_list=[], returns=None, type_comment=None, type_params=[]), m.node)
+        ast.fix_missing_locations(node)
+        call._bindas = ast.copy_location(ast.Call(func=ast.Name(id=name, ctx=ast.Load()), args=[], keywords=kws), call)
+        return FuncInfo(name, f"{c.name}.__call__", node, c.module, None), None
 
     def _closure(self, name: str) -> FuncInfo | None:
         """a function defined (once) inside the viewed function, or a lambda bound (once) to a local: called like a helper;
@@ -540,9 +715,10 @@ class _Deep:
         return any(isinstance(x, (ast.Yield, ast.YieldFrom)) for x in _walk_scope(list(h.node.body)))
 
     # ---------------------------------------------------------------------------------------------- evaluation order
-    def _first_helper_call(self, e: ast.AST | None):
-        """The helper call whose evaluation starts before anything impure in `e` has been evaluated (or None)."""
+    def _first_helper_call(self, e: ast.AST | None, pred=None):
+        """The helper call (or: the call satisfying pred) whose evaluation starts before anything impure in `e` has been evaluated (or None)."""
         hit: list = []
+        pred = pred or (lambda x: self._helper(x) is not None)
 
         def seq(parts) -> str:
             for p in parts:
@@ -557,7 +733,7 @@ class _Deep:
             if isinstance(x, ast.Attribute):
                 return go(x.value)
             if isinstance(x, ast.Call):
-                if self._helper(x) is not None:
+                if pred(x):
                     hit.append(x)
                     return "hit"
                 parts = [x.func] + [a.value if isinstance(a, ast.Starred) else a for a in x.args] + [k.value for k in x.keywords]
@@ -599,6 +775,102 @@ class _Deep:
 
         return hit[0] if go(e) == "hit" else None
 
+    def _needs_statements(self, comp: ast.AST) -> bool:
+        """the element / a condition of the comprehension calls a helper that cannot be written as one expression"""
+        for part in [getattr(comp, "elt", None), getattr(comp, "key", None), getattr(comp, "value", None), *[c for g in comp.generators for c in g.ifs]]:
+            if part is None:
+                continue
+            for x in _walk_scope(part):
+                hp = self._helper(x)
+                if hp is not None:
+                    body = [s_ for s_ in hp[0].node.body if not _is_doc(s_)]
+                    if not (len(body) == 1 and isinstance(body[0], ast.Return)) and not self._is_generator(hp[0]):
+                        return True
+        return False
+
+    def _comp_to_loop(self, block: list, i: int, st: ast.stmt) -> bool:
+        field, e = self._first_expr(st)
+        if e is None:
+            return False
+        # find the comprehension that is evaluated before anything impure of the statement
+        found: list = []
+
+        def go(x) -> str:
+            if x is None or isinstance(x, (ast.Name, ast.Constant)):
+                return "pure"
+            if isinstance(x, ast.ListComp):
+                if len(x.generators) <= 2 and not any(g.is_async for g in x.generators) and self._needs_statements(x):
+                    found.append(x)
+                    return "hit"
+                return "stop"
+            if isinstance(x, ast.Attribute):
+                return go(x.value)
+            if isinstance(x, ast.Call):
+                for p_ in [x.func, *x.args, *[k.value for k in x.keywords]]:
+                    r = go(p_.value if isinstance(p_, ast.Starred) else p_)
+                    if r != "pure":
+                        return r
+                return "stop"
+            if isinstance(x, (ast.Tuple, ast.List)):
+                for p_ in x.elts:
+                    r = go(p_)
+                    if r != "pure":
+                        return r
+                return "pure"
+            if isinstance(x, ast.UnaryOp):
+                return go(x.operand)
+            if isinstance(x, ast.Compare):
+                r = go(x.left)
+                return r if r != "pure" else "stop"
+            return "stop"
+        if go(e) != "hit":
+            return False
+        comp = found[0]
+        rename: dict[str, str] = {}
+        for g in comp.generators:
+            for x in ast.walk(g.target):
+                # the comprehension has a scope of its own: its variables get names nothing else in the function uses
+                if isinstance(x, ast.Name) and x.id not in rename:
+                    rename[x.id] = self._tmp("c")
+        if any(isinstance(x, (ast.NamedExpr, ast.Lambda, ast.GeneratorExp, ast.SetComp, ast.DictComp)) or (isinstance(x, ast.ListComp) and x is not comp) for x in ast.walk(comp)):
+            return False
+        acc = self._tmp("l")
+        sub = _Sub({}, rename)
+        elt = sub.visit(_cl(comp.elt))
+        inner: list = [ast.Expr(value=ast.Call(func=ast.Attribute(value=ast.Name(id=acc, ctx=ast.Load()), attr="append", ctx=ast.Load()), args=[elt], keywords=[]))]
+        gens = []
+        for gi_, g in enumerate(comp.generators):
+            # the first iterable is evaluated in the enclosing scope, later ones inside the comprehension's
+            it = _cl(g.iter) if gi_ == 0 else sub.visit(_cl(g.iter))
+            gens.append((sub.visit(_cl(g.target)), it, [sub.visit(_cl(c)) for c in g.ifs]))
+        for tgt, it, ifs in reversed(gens):
+            for c in reversed(ifs):
+                inner = [ast.If(test=c, body=inner, orelse=[])]
+            inner = [ast.For(target=tgt, iter=it, body=inner, orelse=[], type_comment=None)]
+        init = ast.Assign(targets=[ast.Name(id=acc, ctx=ast.Store())], value=ast.List(elts=[], ctx=ast.Load()))
+        new = [init, *inner]
+        for x in new:
+            ast.copy_location(x, st)
+            ast.fix_missing_locations(x)
+            for y in ast.walk(x):
+                if isinstance(y, ast.Call) and not hasattr(y, "_stk"):
+                    y._stk = ()
+        use = ast.copy_location(ast.Name(id=acc, ctx=ast.Load()), comp)
+        if getattr(st, field) is comp:
+            setattr(st, field, use)
+        else:
+            _ReplaceNode(comp, use).visit(getattr(st, field))
+        block[i:i] = new
+        return True
+
+    def _ctor_with_work(self, x: ast.Call) -> bool:
+        """a constructor call of an immutable helper object one of whose arguments is not a plain name / constant (and is the first of them to be evaluated)"""
+        if self._ctor_kind(x) is None or any(isinstance(a, ast.Starred) for a in x.args) or any(kw.arg is None for kw in x.keywords):
+            return False
+        args = [*x.args, *[kw.value for kw in x.keywords]]
+        first = next((a for a in args if not self._arg_ok(a)), None)
+        return first is not None and not isinstance(first, ast.Lambda)
+
     @staticmethod
     def _first_expr(st: ast.stmt):
         """(field name, expression) evaluated first when the statement is executed"""
@@ -635,8 +907,28 @@ class _Deep:
                 a.value, b.value = v.body, v.orelse
                 block[i] = ast.copy_location(ast.If(test=v.test, body=[a], orelse=[b]), st)
                 return True
-            # (2) statement-level inlining of the first evaluated helper call
+            # (1d) a list comprehension whose element calls a helper that has statements of its own: written as the loop it is
+            r = self._comp_to_loop(block, i, st)
+            if r:
+                return True
+            # (1c) `... filter(_C(f(x)), ys) ...` -> `_a1 = f(x)` / `... filter(_C(_a1), ys) ...` when f(x) is the first thing the statement evaluates
             field, e = self._first_expr(st)
+            if e is not None and not (isinstance(st, (ast.Assign, ast.AnnAssign)) and e is st.value and isinstance(e, ast.Call) and self._ctor_kind(e) is not None):
+                ctor = self._first_helper_call(e, self._ctor_with_work)
+                if ctor is not None:
+                    holders = [(ctor.args, j) for j in range(len(ctor.args))] + [(kw, "value") for kw in ctor.keywords]
+                    for holder, fld in holders:
+                        a = holder[fld] if isinstance(holder, list) else getattr(holder, fld)
+                        if not self._arg_ok(a):
+                            tmp = self._tmp("a")
+                            new_a = ast.copy_location(ast.Name(id=tmp, ctx=ast.Load()), a)
+                            if isinstance(holder, list):
+                                holder[fld] = new_a
+                            else:
+                                setattr(holder, fld, new_a)
+                            block.insert(i, ast.fix_missing_locations(ast.copy_location(ast.Assign(targets=[ast.Name(id=tmp, ctx=ast.Store())], value=a), st)))
+                            return True
+            # (2) statement-level inlining of the first evaluated helper call
             call = self._first_helper_call(e) if e is not None else None
             if call is not None:
                 try:
@@ -720,6 +1012,7 @@ class _Deep:
         a = h.node.args
         pos = [p.arg for p in a.posonlyargs + a.args]
         kwonly = [p.arg for p in a.kwonlyargs]
+        call = getattr(call, "_bindas", call)          # a callable object: constructor + call arguments bound by name
         if any(isinstance(x, ast.Starred) for x in call.args) or any(k.arg is None for k in call.keywords):
             raise _NotExact("star arguments")
         bound: dict[str, ast.expr] = {}
@@ -737,7 +1030,14 @@ class _Deep:
             bound[pos[idx]] = x
             order.append(pos[idx])
             idx += 1
+        extra: list[tuple[str, str]] = []          # (keyword, pseudo parameter) collected by the helper's `**kw`
         for k in call.keywords:
+            if k.arg not in pos + kwonly and a.kwarg is not None and k.arg not in bound:
+                pseudo = f"{a.kwarg.arg}__{k.arg}"
+                extra.append((k.arg, pseudo))
+                bound[pseudo] = k.value
+                order.append(pseudo)
+                continue
             if k.arg not in pos + kwonly or k.arg in bound:
                 raise _NotExact("unknown keyword")
             bound[k.arg] = k.value
@@ -750,7 +1050,7 @@ class _Deep:
             if d is not None and p not in bound:
                 bound[p] = d
                 order.append(p)
-        if set(bound) != set(pos + kwonly):
+        if set(bound) - {ps for k_, ps in extra} != set(pos + kwonly):
             raise _NotExact("unbound parameter")
         body = _cl(body)
         for x in ast.walk(ast.Module(body=body, type_ignores=[])):
@@ -796,6 +1096,22 @@ class _Deep:
             raise _NotExact("argument needs a local")
         sub = _Sub(mapping, rename)
         body = [sub.visit(s) for s in body]
+        if a.kwarg is not None:
+            # `f(**kw)` inside the helper: the keywords this call site passed beyond the named parameters
+            for s_ in body:
+                for x in ast.walk(s_):
+                    if isinstance(x, ast.Call) and any(k.arg is None and isinstance(k.value, ast.Name) and k.value.id == a.kwarg.arg for k in x.keywords):
+                        new_kws = []
+                        for k in x.keywords:
+                            if k.arg is None and isinstance(k.value, ast.Name) and k.value.id == a.kwarg.arg:
+                                for kw_name, ps in extra:
+                                    if any(q.arg == kw_name for q in x.keywords):
+                                        raise _NotExact("keyword passed twice")
+                                    val = _cl(mapping[ps]) if ps in mapping else ast.Name(id=rename.get(ps, ps), ctx=ast.Load())
+                                    new_kws.append(ast.copy_location(ast.keyword(arg=kw_name, value=ast.copy_location(val, x)), x))
+                            else:
+                                new_kws.append(k)
+                        x.keywords = new_kws
         return pre, body
 
     def _tailify(self, stmts: list, make_ret) -> list:
@@ -871,11 +1187,45 @@ class _Deep:
         if not returns:
             self.inlined.append(h)
             return pre + body + hole(None, st) + rest
+        if self._returns_nested(body):
+            # `return v` inside a loop of the helper: the caller's continuation is executed right there - exact when the continuation
+            # never comes back (it always returns / raises and has no break / continue of its own) and no handler of the helper encloses it
+            top = block is self.fn.body
+            cont = rest if _always_returns(rest) else (rest + [ast.copy_location(ast.Return(value=None), st)]) if top else None
+            if isinstance(st, ast.Return):
+                cont = []
+            if cont is None:
+                raise _NotExact("return inside a loop / try")
+            if self._returns_in_try(body) or self._own_jumps([templ, *cont]) or (len(returns) + 1) * (_n_stmts(cont) + 1) > 240:
+                raise _NotExact("return inside a loop / try")
+
+            def subst(stmts: list) -> list:
+                out = []
+                for s_ in stmts:
+                    if isinstance(s_, ast.Return):
+                        out.extend(hole(s_.value, s_) + _cl(cont))
+                        break
+                    for fld in ("body", "orelse", "finalbody"):
+                        blk = getattr(s_, fld, None)
+                        if isinstance(blk, list) and blk and isinstance(blk[0], ast.stmt):
+                            setattr(s_, fld, subst(blk))
+                    if isinstance(s_, ast.Try):
+                        for hd in s_.handlers:
+                            hd.body = subst(hd.body)
+                    if isinstance(s_, ast.Match):
+                        for c_ in s_.cases:
+                            c_.body = subst(c_.body)
+                    out.append(s_)
+                return out
+            new_body = subst(body)
+            if not _always_returns(body):
+                new_body = new_body + hole(None, st) + _cl(cont)
+            self.inlined.append(h)
+            return pre + new_body
         if not _always_returns(body):
             body = body + [ast.copy_location(ast.Return(value=None), st)]
         values = [r.value for r in returns]
-        decisive = any(v is None or _is_constlike(v) or (isinstance(v, ast.Tuple) and any(_is_constlike(x) for x in v.elts)) or
-                       (isinstance(v, ast.IfExp) and (_is_constlike(v.body) or _is_constlike(v.orelse))) for v in values)
+        decisive = any(v is None or self._is_decision(v) or (isinstance(v, ast.IfExp) and (_is_constlike(v.body) or _is_constlike(v.orelse))) for v in values)
         push = isinstance(st, ast.Return) or (decisive and len(returns) + sum(isinstance(v, ast.IfExp) for v in values) > 1
                                               and isinstance(st, (ast.Assign, ast.AnnAssign, ast.If, ast.Expr, ast.Match))
                                               and (len(returns) + 1) * _n_stmts(rest) <= 240)
@@ -964,6 +1314,34 @@ class _Deep:
         _ReplaceNode(call, ast.copy_location(ast.Name(id=acc, ctx=ast.Load()), call)).visit(st)
         self.inlined.append(h)
         return pre + [init] + replace_yields(body, make2) + [st] + rest
+
+    @staticmethod
+    def _returns_nested(body: list) -> bool:
+        """a `return` of the helper that lies inside a loop / try / match (what _tailify cannot bring into single-exit form)"""
+        def go(stmts, inside: bool) -> bool:
+            for s_ in stmts:
+                if isinstance(s_, ast.Return) and inside:
+                    return True
+                if isinstance(s_, _SCOPES):
+                    continue
+                deeper = inside or isinstance(s_, (ast.For, ast.AsyncFor, ast.While, ast.Try, ast.Match))
+                for fld in ("body", "orelse", "finalbody"):
+                    blk = getattr(s_, fld, None)
+                    if isinstance(blk, list) and blk and isinstance(blk[0], ast.stmt) and go(blk, deeper):
+                        return True
+                if isinstance(s_, ast.Try) and any(go(hd.body, True) for hd in s_.handlers):
+                    return True
+                if isinstance(s_, ast.Match) and any(go(c_.body, True) for c_ in s_.cases):
+                    return True
+            return False
+        return go(body, False)
+
+    @staticmethod
+    def _returns_in_try(body: list) -> bool:
+        for s_ in _walk_scope(list(body)):
+            if isinstance(s_, (ast.Try, ast.With, ast.AsyncWith)) and any(isinstance(x, ast.Return) for x in _walk_scope([s_])):
+                return True
+        return False
 
     @staticmethod
     def _own_jumps(stmts: list) -> bool:
@@ -1060,6 +1438,275 @@ class _Deep:
             return ast.copy_location(entry, at)
         return None
 
+    # library callables, record objects ----------------------------------------------------------------
+    # `attrgetter("a")(x)` is `x.a`, `methodcaller("m", a)(x)` is `x.m(a)`, `itemgetter(k)(x)` is `x[k]`, `partial(f, a)(b)` is
+    # `f(a, b)`, `operator.eq(a, b)` is `a == b` (documented equivalences of the standard library); `R(a, b).f` for a
+    # NamedTuple / dataclass R without a hand-written constructor is the argument bound to field f.
+    def _mods(self) -> list:
+        out = [self.mod]
+        for c in (self.cls.mro() if self.cls is not None else ()):
+            if c.module not in out:
+                out.append(c.module)
+        return out
+
+    def _ext(self, e: ast.AST) -> str | None:
+        """`operator.eq` / `functools.partial` ...: the standard-library callable denoted by a name or module attribute (import aliases followed)"""
+        if isinstance(e, ast.Name):
+            for m in self._mods():
+                imp = m.imports.get(e.id)
+                if imp is not None and imp[1] is not None and imp[0] in _STDLIB:
+                    return None if e.id in self.locals else f"{imp[0]}.{imp[1]}"
+        elif isinstance(e, ast.Attribute) and isinstance(e.value, ast.Name):
+            for m in self._mods():
+                imp = m.imports.get(e.value.id)
+                if imp is not None and imp[1] is None and imp[0] in _STDLIB:
+                    return None if e.value.id in self.locals else f"{imp[0]}.{e.attr}"
+        return None
+
+    def _static_value(self, e: ast.AST) -> ast.AST | None:
+        """the expression a module constant / class attribute / instance attribute assigned once (in __init__) was defined by"""
+        if isinstance(e, ast.Name) and e.id not in self.locals:
+            for m in self._mods():
+                r = self.repo.resolve_name(m, e.id)
+                if isinstance(r, tuple) and r[0] == "const":
+                    return r[2]
+            return None
+        if isinstance(e, ast.Attribute) and isinstance(e.value, ast.Name) and self.cls is not None and e.value.id not in self.locals - {"self", "cls"}:
+            owner = None
+            if e.value.id in ("self", "cls"):
+                owner = self.cls
+            else:
+                c = self.repo.resolve_class_expr(self.mod, e.value)
+                if c is not None and c in self.cls.mro():
+                    owner = c
+            if owner is None:
+                return None
+            v = owner.lookup_attr(e.attr)
+            if v is not None:
+                return v
+            if e.value.id == "self":
+                sts = [s for c in self.cls.mro() for m in c.methods.values() for s, t in stores(m, "self." + e.attr)]
+                if len(sts) == 1 and isinstance(sts[0], (ast.Assign, ast.AnnAssign)) and sts[0].value is not None \
+                        and self.repo.function_of(sts[0]) is not None and self.repo.function_of(sts[0]).name == "__init__":
+                    return sts[0].value
+        return None
+
+    def _callobj(self, e: ast.AST, depth: int = 2):
+        """(kind, constructor call) when e denotes an attrgetter / itemgetter / methodcaller / partial object"""
+        if isinstance(e, ast.Call):
+            k = self._ext(e.func)
+            if k in _CALLOBJS and not any(isinstance(a, ast.Starred) for a in e.args) and not any(kw.arg is None for kw in e.keywords):
+                if k != "functools.partial" and (e.keywords and k != "operator.methodcaller" or not e.args):
+                    return None
+                return k.split(".")[1], e
+            return None
+        if depth <= 0 or not isinstance(e, (ast.Name, ast.Attribute)):
+            return None
+        v = self._static_value(e)
+        if not isinstance(v, ast.Call):
+            return None
+        r = self._callobj(v, depth - 1)
+        if r is None:
+            return None
+        # defined in another scope: only arguments that mean the same everywhere
+        args = [*r[1].args, *[kw.value for kw in r[1].keywords]]
+        if r[0] == "partial":
+            fn_, args = args[0], args[1:]
+            if not (_pure_simple(fn_) and not any(isinstance(x, ast.Name) and x.id in ("self", "cls") for x in ast.walk(fn_)) and self._ext(fn_) is not None):
+                return None
+        return r if all(isinstance(a, ast.Constant) for a in args) else None
+
+    def _apply_callobj(self, kind: str, ctor: ast.Call, n: ast.Call) -> ast.AST | None:
+        """the call `n` of a library callable object built by `ctor`, written out"""
+        if any(isinstance(a, ast.Starred) for a in n.args) or any(kw.arg is None for kw in n.keywords):
+            return None
+        if kind == "partial":
+            new = ast.Call(func=_cl(ctor.args[0]), args=[*_cl(ctor.args[1:]), *n.args], keywords=[*_cl(ctor.keywords), *n.keywords])
+            if {kw.arg for kw in ctor.keywords} & {kw.arg for kw in n.keywords}:
+                return None
+            # evaluation order: the bound arguments were evaluated when the object was built
+            if not all(_pure_simple(a) for a in [*ctor.args, *[kw.value for kw in ctor.keywords]]):
+                return None
+            new._stk = getattr(n, "_stk", ())
+            return ast.copy_location(new, n)
+        if len(n.args) != 1 or n.keywords:
+            return None
+        x = n.args[0]
+        if kind == "methodcaller":
+            name = ctor.args[0]
+            if not (isinstance(name, ast.Constant) and isinstance(name.value, str) and name.value.isidentifier()):
+                return None
+            rest = [*ctor.args[1:], *[kw.value for kw in ctor.keywords]]
+            if rest and not (_pure_simple(x) or all(_pure_simple(a) for a in rest)):
+                return None
+            new = ast.Call(func=ast.Attribute(value=x, attr=name.value, ctx=ast.Load()), args=_cl(ctor.args[1:]), keywords=_cl(ctor.keywords))
+            new._stk = getattr(n, "_stk", ())
+            return ast.fix_missing_locations(ast.copy_location(new, n))
+        if len(ctor.args) > 1 and not _pure_simple(x):
+            return None
+
+        def one(a: ast.AST, obj: ast.AST) -> ast.AST | None:
+            if kind == "itemgetter":
+                return ast.Subscript(value=obj, slice=_cl(a), ctx=ast.Load()) if _pure_simple(a) or isinstance(a, ast.Slice) else None
+            if not (isinstance(a, ast.Constant) and isinstance(a.value, str) and a.value and all(p.isidentifier() for p in a.value.split("."))):
+                return None
+            for p in a.value.split("."):
+                obj = ast.Attribute(value=obj, attr=p, ctx=ast.Load())
+            return obj
+        parts = [one(a, x if len(ctor.args) == 1 else _cl(x)) for a in ctor.args]
+        if any(p is None for p in parts):
+            return None
+        new = parts[0] if len(parts) == 1 else ast.Tuple(elts=parts, ctx=ast.Load())
+        return ast.fix_missing_locations(ast.copy_location(new, n))
+
+    @staticmethod
+    def _apply_operator(name: str, n: ast.Call) -> ast.AST | None:
+        """`operator.<name>(args)` written with the operator it stands for"""
+        if n.keywords or any(isinstance(a, ast.Starred) for a in n.args):
+            return None
+        a = n.args
+        new = None
+        if name in _OP_COMPARE and len(a) == 2:
+            new = ast.Compare(left=a[0], ops=[_OP_COMPARE[name]()], comparators=[a[1]])
+        elif name in _OP_BINARY and len(a) == 2:
+            new = ast.BinOp(left=a[0], op=_OP_BINARY[name](), right=a[1])
+        elif name == "contains" and len(a) == 2 and (_pure_simple(a[0]) or _pure_simple(a[1])):
+            new = ast.Compare(left=a[1], ops=[ast.In()], comparators=[a[0]])
+        elif name == "not_" and len(a) == 1:
+            new = ast.UnaryOp(op=ast.Not(), operand=a[0])
+        elif name == "truth" and len(a) == 1:
+            new = ast.Call(func=ast.Name(id="bool", ctx=ast.Load()), args=[a[0]], keywords=[])
+        elif name == "getitem" and len(a) == 2:
+            new = ast.Subscript(value=a[0], slice=a[1], ctx=ast.Load())
+        return None if new is None else ast.fix_missing_locations(ast.copy_location(new, n))
+
+    def _class_of(self, e: ast.AST):
+        """the class of this package a (non-local) name denotes"""
+        if isinstance(e, ast.Name) and e.id not in self.locals:
+            for m in self._mods():
+                r = self.repo.resolve_name(m, e.id)
+                if r is not None:
+                    from ..model import ClassInfo
+                    return r if isinstance(r, ClassInfo) else None
+        return None
+
+    def _record(self, e: ast.AST):
+        """(class, [(field, default)]) when e is a constructor call `R(...)` of a NamedTuple / dataclass whose constructor is the generated one"""
+        if not isinstance(e, ast.Call) or any(isinstance(a, ast.Starred) for a in e.args) or any(kw.arg is None for kw in e.keywords):
+            return None
+        c = self._class_of(e.func)
+        if c is None:
+            return None
+        hit = _RECORDS.get(id(c.node))
+        if hit is None or hit[0] is not c.node:
+            if len(_RECORDS) > 400:
+                _RECORDS.clear()
+            hit = _RECORDS[id(c.node)] = (c.node, _record_fields(c))
+        return None if hit[1] is None else (c, hit[1])
+
+    def _record_args(self, e: ast.Call) -> dict[str, ast.AST] | None:
+        """field -> argument expression of a record constructor call"""
+        r = self._record(e)
+        if r is None:
+            return None
+        fields = r[1]
+        if len(e.args) > len(fields):
+            return None
+        out: dict[str, ast.AST] = {}
+        for (name, _d), a in zip(fields, e.args):
+            out[name] = a
+        for kw in e.keywords:
+            if kw.arg in out or kw.arg not in [f for f, d in fields]:
+                return None
+            out[kw.arg] = kw.value
+        for name, d in fields:
+            if name not in out:
+                if d is None or not isinstance(d, ast.Constant):
+                    return None
+                out[name] = d
+        return out
+
+    def _project(self, e: ast.Call, field) -> ast.AST | None:
+        """`R(a, b).field` / `R(a, b)[i]`: the argument, when dropping the evaluation of the other arguments changes nothing"""
+        args = self._record_args(e)
+        if args is None:
+            return None
+        r = self._record(e)
+        if isinstance(field, int):
+            if not _is_namedtuple(r[0]) or not -len(r[1]) <= field < len(r[1]):
+                return None
+            field = r[1][field][0]
+        if field not in args:
+            return None
+        if not all(_pure_expr(v) for k, v in args.items() if k != field):
+            return None
+        return _cl(args[field])
+
+    def _record_member(self, e: ast.Call, name: str, called: bool) -> ast.AST | None:
+        """`R(a, b).prop` / `R(a, b).method()` for a property / parameterless method of the record that is one `return <expr over self.fields>`"""
+        r = self._record(e)
+        args = self._record_args(e) if r is not None else None
+        if args is None or not all(_pure_expr(v) for v in args.values()):
+            return None
+        m = r[0].methods.get(name)
+        if m is None or m.is_async:
+            return None
+        decs = m.decorator_names()
+        if (decs != ["property"] and not called) or (called and decs) or len(m.params()) != 1:
+            return None
+        body = [s_ for s_ in m.node.body if not _is_doc(s_)]
+        if len(body) != 1 or not isinstance(body[0], ast.Return) or body[0].value is None:
+            return None
+        me_ = m.params()[0]
+        ok = True
+
+        class R(ast.NodeTransformer):
+            def visit_Attribute(self, n):  # noqa: N802
+                nonlocal ok
+                if isinstance(n.value, ast.Name) and n.value.id == me_:
+                    if isinstance(n.ctx, ast.Load) and n.attr in args:
+                        return ast.copy_location(_cl(args[n.attr]), n)
+                    ok = False
+                    return n
+                return self.generic_visit(n)
+
+            def visit_Name(self, n):  # noqa: N802
+                nonlocal ok
+                if n.id == me_ or (n.id not in ("True", "False", "None") and not n.id.isupper() and n.id not in ("len", "bool", "isinstance")):
+                    ok = False
+                return n
+        val = R().visit(_cl(body[0].value))
+        if not ok or any(isinstance(x, (ast.Lambda, *_COMPS, ast.NamedExpr, ast.Await)) for x in ast.walk(val)):
+            return None
+        return ast.fix_missing_locations(val)
+
+    def _ctor_kind(self, e: ast.AST) -> str | None:
+        """a call that builds an immutable helper object out of its arguments and does nothing else"""
+        if not isinstance(e, ast.Call):
+            return None
+        if self._callobj(e, 0) is not None:
+            return "callobj"
+        if self._record(e) is not None and self._record_args(e) is not None:
+            return "record"
+        if self._callable_class(e) is not None:
+            return "callclass"
+        return None
+
+    def _callable_class(self, e: ast.AST):
+        """(class, {attribute: constructor parameter}, constructor FuncInfo | None) when e is `_C(...)`: a private class of this package
+        whose constructor only stores its parameters and that has a __call__ reading them"""
+        if not isinstance(e, ast.Call):
+            return None
+        c = self._class_of(e.func)
+        if c is None or not _is_private(c.name) or "__call__" not in c.methods or c.bases or [b for b in c.base_names if b != "object"]:
+            return None
+        hit = _CALLCLASSES.get(id(c.node))
+        if hit is None or hit[0] is not c.node:
+            if len(_CALLCLASSES) > 400:
+                _CALLCLASSES.clear()
+            hit = _CALLCLASSES[id(c.node)] = (c.node, _stored_params(c))
+        return None if hit[1] is None else (c, hit[1])
+
     def _fold(self, e: ast.AST) -> ast.AST:
         """bottom-up constant folding of one expression (tests on constants, lookups in literal tables)"""
         me = self
@@ -1106,6 +1753,13 @@ class _Deep:
                 self.generic_visit(n)
                 if len(n.ops) != 1:
                     return n
+                # `b is True` / `b is not False` / `b == True` for a truth value b is `b`; `b is False` ... is `not b`
+                if isinstance(n.ops[0], (ast.Is, ast.IsNot, ast.Eq, ast.NotEq)):
+                    for a, b in ((n.left, n.comparators[0]), (n.comparators[0], n.left)):
+                        if isinstance(b, ast.Constant) and isinstance(b.value, bool) and not isinstance(a, ast.Constant) and me._bool_valued(a):
+                            me.changed = True
+                            same = b.value == isinstance(n.ops[0], (ast.Is, ast.Eq))
+                            return a if same else ast.copy_location(ast.UnaryOp(op=ast.Not(), operand=a), n)
                 r = me._compare(n.left, n.ops[0], n.comparators[0])
                 if r is None:
                     return n
@@ -1143,6 +1797,11 @@ class _Deep:
                     return n
                 k = me._const_of(n.slice)
                 sym = me._symbol(n.slice)
+                if isinstance(k, int) and not isinstance(k, bool) and isinstance(n.value, ast.Call) and me._record(n.value) is not None:
+                    r = me._project(n.value, k)
+                    if r is not None:
+                        me.changed = True
+                        return ast.copy_location(r, n)
                 if k is _NOCONST and sym is None:
                     return n
                 r = me._lookup(n.value, k, sym, n)
@@ -1151,9 +1810,53 @@ class _Deep:
                 me.changed = True
                 return r
 
-            def visit_Call(self, n):  # noqa: N802
+            def visit_Attribute(self, n):  # noqa: N802
+                self.generic_visit(n)
+                if isinstance(n.ctx, ast.Load) and isinstance(n.value, ast.Call) and me._record(n.value) is not None:
+                    r = me._project(n.value, n.attr)
+                    if r is None:
+                        r = me._record_member(n.value, n.attr, False)
+                    if r is not None:
+                        me.changed = True
+                        return ast.copy_location(r, n)
+                return n
+
+            def _call_main(self, n):
                 self.generic_visit(n)
                 f = n.func
+                if isinstance(f, ast.Attribute) and isinstance(f.value, ast.Call) and not n.args and not n.keywords and me._record(f.value) is not None:
+                    r = me._record_member(f.value, f.attr, True)
+                    if r is not None:
+                        me.changed = True
+                        return ast.copy_location(r, n)
+                # library callables written out: operator.eq(a, b), attrgetter("x")(o), methodcaller("m")(o), partial(f, a)(b)
+                k = me._ext(f)
+                if k is not None and k.startswith("operator."):
+                    r = me._apply_operator(k.split(".", 1)[1], n)
+                    if r is not None:
+                        me.changed = True
+                        return r
+                if k == "functools.reduce" and len(n.args) in (2, 3) and not n.keywords and isinstance(n.args[1], (ast.Tuple, ast.List)) and n.args[1].elts \
+                        and not any(isinstance(x, ast.Starred) for x in n.args[1].elts) and me._ext(n.args[0]) in ("operator.add", "operator.concat"):
+                    parts = ([n.args[2]] if len(n.args) == 3 else []) + list(n.args[1].elts)
+                    acc = parts[0]
+                    for x in parts[1:]:
+                        acc = ast.BinOp(left=acc, op=ast.Add(), right=x)
+                    me.changed = True
+                    return ast.fix_missing_locations(ast.copy_location(acc, n))
+                co = me._callobj(f) if isinstance(f, (ast.Call, ast.Name, ast.Attribute)) and k is None else None
+                if co is not None:
+                    r = me._apply_callobj(co[0], co[1], n)
+                    if r is not None:
+                        me.changed = True
+                        return r
+                # isinstance(R(...), R) for a record built right here
+                if isinstance(f, ast.Name) and f.id == "isinstance" and len(n.args) == 2 and not n.keywords and isinstance(n.args[0], ast.Call) \
+                        and isinstance(n.args[1], ast.Name) and isinstance(n.args[0].func, ast.Name) and n.args[0].func.id == n.args[1].id \
+                        and me._record(n.args[0]) is not None and me._record_args(n.args[0]) is not None \
+                        and all(_pure_expr(a) for a in [*n.args[0].args, *[kw.value for kw in n.args[0].keywords]]):
+                    me.changed = True
+                    return ast.copy_location(ast.Constant(True), n)
                 # TABLE.get(const[, default])
                 if isinstance(f, ast.Attribute) and f.attr == "get" and 1 <= len(n.args) <= 2 and not n.keywords:
                     k = me._const_of(n.args[0])
@@ -1164,13 +1867,16 @@ class _Deep:
                             me.changed = True
                             return r
                 # filter(pred, xs) -> (v for v in xs if pred(v));  map(fn, xs) -> (fn(v) for v in xs)   (both lazy, same evaluation)
-                if isinstance(f, ast.Name) and f.id in ("filter", "map") and len(n.args) == 2 and not n.keywords and f.id not in me.locals \
-                        and not any(isinstance(a, ast.Starred) for a in n.args):
+                kind_ = f.id if isinstance(f, ast.Name) and f.id in ("filter", "map") and f.id not in me.locals else \
+                    "filterfalse" if me._ext(f) == "itertools.filterfalse" else None
+                if kind_ is not None and len(n.args) == 2 and not n.keywords and not any(isinstance(a, ast.Starred) for a in n.args):
                     fn_, xs = n.args
                     var = None
                     if isinstance(fn_, ast.Lambda) and len(fn_.args.args) == 1 and not (fn_.args.posonlyargs or fn_.args.kwonlyargs or fn_.args.vararg or fn_.args.kwarg or fn_.args.defaults):
                         var, app = fn_.args.args[0].arg, fn_.body
-                    elif _pure_simple(fn_) and not (isinstance(fn_, ast.Constant) and f.id == "map"):
+                    elif (_pure_simple(fn_) or (isinstance(fn_, ast.Call) and me._ctor_kind(fn_) is not None and
+                                                all(me._arg_ok(a) for a in [*fn_.args, *[kw.value for kw in fn_.keywords]]))) \
+                            and not (isinstance(fn_, ast.Constant) and kind_ == "map"):
                         var = me._tmp("v")
                         app = ast.Name(id=var, ctx=ast.Load()) if isinstance(fn_, ast.Constant) and fn_.value is None else \
                             ast.Call(func=fn_, args=[ast.Name(id=var, ctx=ast.Load())], keywords=[])
@@ -1178,8 +1884,8 @@ class _Deep:
                             app._stk = getattr(n, "_stk", ())
                     if var is not None:
                         me.changed = True
-                        gen = ast.comprehension(target=ast.Name(id=var, ctx=ast.Store()), iter=xs, ifs=[app] if f.id == "filter" else [], is_async=0)
-                        elt = ast.Name(id=var, ctx=ast.Load()) if f.id == "filter" else app
+                        gen = ast.comprehension(target=ast.Name(id=var, ctx=ast.Store()), iter=xs, ifs=[app] if kind_ == "filter" else [ast.UnaryOp(op=ast.Not(), operand=app)] if kind_ == "filterfalse" else [], is_async=0)
+                        elt = ast.Name(id=var, ctx=ast.Load()) if kind_ != "map" else app
                         return ast.fix_missing_locations(ast.copy_location(ast.GeneratorExp(elt=elt, generators=[gen]), n))
                 # getattr(self, "name")
                 if isinstance(f, ast.Name) and f.id == "getattr" and len(n.args) == 2 and not n.keywords and isinstance(n.args[1], ast.Constant) \
@@ -1190,6 +1896,58 @@ class _Deep:
 
             def visit_Lambda(self, n):  # noqa: N802
                 return n
+
+            def _unrolled(self, n):
+                """[f(x) for x in ("a", "b")] -> [f("a"), f("b")]: a comprehension over a short literal table of constants, written out"""
+                if len(n.generators) != 1 or n.generators[0].is_async or not isinstance(n.generators[0].target, ast.Name):
+                    return None
+                g = n.generators[0]
+                if isinstance(g.iter, (ast.Tuple, ast.List)) and not g.ifs and isinstance(n.elt, ast.Name) and n.elt.id == g.target.id \
+                        and not any(isinstance(x, ast.Starred) for x in g.iter.elts):
+                    return list(g.iter.elts)             # [x for x in (a, b)] is [a, b]
+                tab, _owner = me._table(g.iter)
+                if not isinstance(tab, (ast.Tuple, ast.List)) or not 0 < len(tab.elts) <= 8 or not all(isinstance(x, ast.Constant) for x in tab.elts):
+                    return None
+                var = g.target.id
+                if any(isinstance(x, (ast.NamedExpr, ast.Lambda, *_COMPS)) for part in (n.elt, *g.ifs) for x in ast.walk(part)) or \
+                        any(isinstance(x, ast.Name) and x.id == var and not isinstance(x.ctx, ast.Load) for part in (n.elt, *g.ifs) for x in ast.walk(part)):
+                    return None
+                out = []
+                for c in tab.elts:
+                    keep = True
+                    for cond in g.ifs:
+                        t = me._truth(me._fold(_Sub({var: c}).visit(_cl(cond))))
+                        if t is None:
+                            return None
+                        keep = keep and t
+                    if keep:
+                        out.append(me._fold(_Sub({var: c}).visit(_cl(n.elt))))
+                return out
+
+            def visit_ListComp(self, n):  # noqa: N802
+                self.generic_visit(n)
+                elts = self._unrolled(n)
+                if elts is None:
+                    return n
+                me.changed = True
+                return ast.fix_missing_locations(ast.copy_location(ast.List(elts=elts, ctx=ast.Load()), n))
+
+            def visit_Call(self, n):  # noqa: N802
+                # a generator over a literal table handed to a consumer that exhausts it at once: join / tuple / list / sum ...
+                if len(n.args) == 1 and not n.keywords and isinstance(n.args[0], ast.GeneratorExp) and \
+                        ((isinstance(n.func, ast.Name) and n.func.id in _EXHAUSTING and n.func.id not in me.locals) or
+                         (isinstance(n.func, ast.Attribute) and n.func.attr == "join" and isinstance(n.func.value, ast.Constant))):
+                    self.generic_visit(n.args[0])
+                    elts = self._unrolled(n.args[0])
+                    if elts is not None:
+                        me.changed = True
+                        n.args[0] = ast.fix_missing_locations(ast.copy_location(ast.Tuple(elts=elts, ctx=ast.Load()), n.args[0]))
+                if isinstance(n.func, ast.Name) and n.func.id == "list" and "list" not in me.locals and len(n.args) == 1 and not n.keywords \
+                        and isinstance(n.args[0], ast.GeneratorExp):
+                    me.changed = True                  # list(<generator expression>) is the list comprehension
+                    g = n.args[0]
+                    return self.visit(ast.copy_location(ast.ListComp(elt=g.elt, generators=g.generators), n))
+                return self._call_main(n)
         return F().visit(e)
 
     @staticmethod
@@ -1258,6 +2016,12 @@ class _Deep:
             sl, sr = self._symbol(left), self._symbol(right)
             if sl is not None and sr is not None:
                 return self._same_symbol(left, right, sl, sr, pos)
+            if isinstance(left, ast.Attribute) and isinstance(right, ast.Attribute) and left.attr.isupper() and right.attr.isupper() and chain(left.value) == chain(right.value):
+                # members of one Enum class with literal values: the same member iff the values are equal (equal values are aliases)
+                c = self._class_of(left.value) or self.repo.resolve_class_expr(self.mod, left.value)
+                lv, rv = self._const_of(left), self._const_of(right)
+                if c is not None and any("Enum" in n or "Flag" in n for n in c.all_base_names()) and lv is not _NOCONST and rv is not _NOCONST:
+                    return (type(lv) is type(rv) and lv == rv) == pos
             return None
         lv, rv = self._const_of(left), self._const_of(right)
         if lv is not _NOCONST and rv is not _NOCONST:
@@ -1351,15 +2115,81 @@ class _Deep:
     def _assign_env(self, env: dict, target: ast.AST, value: ast.AST | None) -> None:
         if isinstance(target, ast.Name):
             self._kill(env, {target.id})
-            if value is not None and ((_is_constlike(value) and not isinstance(value, ast.Name)) or self._stable_chain(value)) \
+            if value is not None and ((_is_constlike(value) and not isinstance(value, ast.Name)) or self._stable_chain(value) or self._object_value(target.id, value)) \
                     and not any(isinstance(x, ast.Name) and x.id == target.id for x in ast.walk(value)):
                 env[target.id] = value
+        elif isinstance(target, (ast.Tuple, ast.List)) and isinstance(value, ast.Call) and _is_namedtuple_call(self, value) \
+                and len(target.elts) == len(self._record(value)[1]) and not any(isinstance(x, ast.Starred) for x in target.elts):
+            args = self._record_args(value)
+            for t, (f, _d) in zip(target.elts, self._record(value)[1]):
+                self._assign_env(env, t, args[f])
         elif isinstance(target, (ast.Tuple, ast.List)) and isinstance(value, (ast.Tuple, ast.List)) and len(target.elts) == len(value.elts) \
                 and not any(isinstance(x, ast.Starred) for x in [*target.elts, *value.elts]):
             for t, v in zip(target.elts, value.elts):
                 self._assign_env(env, t, v)
         else:
             self._kill(env, _stored_names([target]))
+
+    def _bool_valued(self, e: ast.AST, depth: int = 3) -> bool:
+        """e evaluates to True or False (comparison, negation, and / or of such, bool(...), a local only ever assigned such values)"""
+        if isinstance(e, ast.Constant):
+            return isinstance(e.value, bool)
+        if isinstance(e, ast.Compare):
+            return True
+        if isinstance(e, ast.UnaryOp) and isinstance(e.op, ast.Not):
+            return True
+        if isinstance(e, ast.BoolOp):
+            return all(self._bool_valued(v, depth) for v in e.values)
+        if isinstance(e, ast.IfExp):
+            return self._bool_valued(e.body, depth) and self._bool_valued(e.orelse, depth)
+        if isinstance(e, ast.Call) and isinstance(e.func, ast.Name) and e.func.id in ("bool", "isinstance", "all", "any", "callable", "hasattr", "issubclass"):
+            return e.func.id not in self.locals
+        if isinstance(e, ast.Name) and depth > 0 and e.id not in self.fi.params():
+            vals = []
+            for x in _walk_scope(list(self.fn.body)):
+                if isinstance(x, ast.Name) and x.id == e.id and isinstance(x.ctx, (ast.Store, ast.Del)):
+                    st = next((y for y in _walk_scope(list(self.fn.body)) if isinstance(y, (ast.Assign, ast.AnnAssign)) and
+                               any(t is x for t in (y.targets if isinstance(y, ast.Assign) else [y.target]))), None)
+                    if st is None or st.value is None:
+                        return False
+                    vals.append(st.value)
+            return bool(vals) and all(self._bool_valued(v, depth - 1) for v in vals)
+        return False
+
+    def _arg_ok(self, a: ast.AST) -> bool:
+        """an argument whose value is the same wherever it is read while the names in it are not rebound: constant, local, attribute chain
+        that is only assigned in constructors"""
+        if isinstance(a, (ast.Constant, ast.Name)) or _is_constlike(a):
+            return True
+        return self._stable_chain(a)
+
+    def _is_decision(self, v: ast.AST) -> bool:
+        """a value that tells the code that receives it what to do: a constant / enum member, or a tuple / record carrying one"""
+        if _is_constlike(v):
+            return True
+        if isinstance(v, ast.Tuple):
+            return any(_is_constlike(x) for x in v.elts)
+        if isinstance(v, ast.Call) and self._record(v) is not None:
+            return any(_is_constlike(x) for x in [*v.args, *[kw.value for kw in v.keywords]])
+        return False
+
+    def _object_value(self, name: str, value: ast.AST) -> bool:
+        """`name = R(a, b)` / `name = attrgetter("x")` / `name = _Callable(a)` with simple arguments: `name` stands for that immutable
+        object wherever the arguments still mean the same (the environment forgets it when one of them is rebound)"""
+        if not isinstance(value, ast.Call) or not all(self._arg_ok(a) for a in [*value.args, *[kw.value for kw in value.keywords]]):
+            return False
+        kind = self._ctor_kind(value)
+        if kind is None:
+            return False
+        if kind == "record" and not _is_namedtuple(self._record(value)[0]) and not _is_frozen(self._record(value)[0]):
+            # a dataclass instance can be modified: not when it stays in this function and no attribute of it is stored
+            for x in _walk_scope(list(self.fn.body)):
+                if isinstance(x, ast.Attribute) and isinstance(x.ctx, (ast.Store, ast.Del)) and isinstance(x.value, ast.Name) and x.value.id == name:
+                    return False
+                if isinstance(x, ast.Call) and any(isinstance(a, ast.Name) and a.id == name for a in [*x.args, *[kw.value for kw in x.keywords]]) and \
+                        not (isinstance(x.func, ast.Name) and x.func.id in ("isinstance", "type", "id", "repr", "str")):
+                    return False
+        return True
 
     @staticmethod
     def _merge(e1: dict | None, e2: dict | None) -> dict | None:
@@ -1396,7 +2226,7 @@ class _Deep:
                 # a decision taken in the branches and acted upon after the `if`: move the continuation into the branches
                 if e1 is not None and e2 is not None and rest and self.thread_budget > 0:
                     differs = {k for k in set(e1) | set(e2) if not (k in e1 and k in e2 and ast.dump(e1[k]) == ast.dump(e2[k]))
-                               and any(k in e and _is_constlike(e[k]) for e in (e1, e2))}          # decision values only, not aliases
+                               and any(k in e and self._is_decision(e[k]) for e in (e1, e2))}          # decision values only, not aliases
                     if differs & _loaded_names(rest) and _n_stmts(rest) <= 60:
                         self.thread_budget -= 1
                         self.changed = True
@@ -1418,6 +2248,27 @@ class _Deep:
             if isinstance(st, (ast.Assign, ast.AnnAssign)):
                 if st.value is not None:
                     st.value = self._ex(st.value, env)
+                if isinstance(st.value, ast.Call) and self._ctor_kind(st.value) is not None:
+                    # `d = R(f(x), y)` -> `_a1 = f(x)` / `d = R(_a1, y)`: same evaluation, and `d` now names a value that can be followed
+                    pre = []
+                    for holder, fld in [(st.value.args, j) for j in range(len(st.value.args))] + [(kw, "value") for kw in st.value.keywords]:
+                        a = holder[fld] if isinstance(holder, list) else getattr(holder, fld)
+                        if not self._arg_ok(a) and not isinstance(a, ast.Starred):
+                            tmp = self._tmp("a")
+                            pre.append(ast.copy_location(ast.Assign(targets=[ast.Name(id=tmp, ctx=ast.Store())], value=a), st))
+                            new_a = ast.copy_location(ast.Name(id=tmp, ctx=ast.Load()), a)
+                            if isinstance(holder, list):
+                                holder[fld] = new_a
+                            else:
+                                setattr(holder, fld, new_a)
+                    if pre:
+                        self.changed = True
+                        ast.fix_missing_locations(st)
+                        for x in pre:
+                            ast.fix_missing_locations(x)
+                        stmts[i - 1:i] = [*pre, st]
+                        i -= 1
+                        continue
                 tgts = st.targets if isinstance(st, ast.Assign) else [st.target]
                 for k_, t in enumerate(tgts):
                     t = self._ex_target(t, env)
@@ -1425,6 +2276,20 @@ class _Deep:
                         st.targets[k_] = t
                     else:
                         st.target = t
+                if isinstance(st, ast.Assign) and len(tgts) == 1 and isinstance(tgts[0], (ast.Tuple, ast.List)) and all(isinstance(t, ast.Name) for t in tgts[0].elts):
+                    # `a, b = R(x, y)` / `a, b = x, y` with plain operands none of which is assigned here: `a = x` / `b = y`
+                    vals = None
+                    if isinstance(st.value, (ast.Tuple, ast.List)) and not any(isinstance(x, ast.Starred) for x in st.value.elts):
+                        vals = list(st.value.elts)
+                    elif isinstance(st.value, ast.Call) and _is_namedtuple_call(self, st.value):
+                        args = self._record_args(st.value)
+                        vals = [args[f] for f, _d in self._record(st.value)[1]]
+                    names = [t.id for t in tgts[0].elts]
+                    if vals is not None and len(vals) == len(names) and len(set(names)) == len(names) and all(_pure_simple(v) for v in vals) \
+                            and not (set(names) & {x.id for v in vals for x in ast.walk(v) if isinstance(x, ast.Name)}):
+                        self.changed = True
+                        stmts[i:i] = [ast.fix_missing_locations(ast.copy_location(ast.Assign(targets=[ast.Name(id=nm, ctx=ast.Store())], value=_cl(v)), st)) for nm, v in zip(names, vals)]
+                        continue
                 if isinstance(st, ast.Assign) and len(tgts) == 1:
                     self._assign_env(env, tgts[0], st.value)
                 elif isinstance(st, ast.AnnAssign) and st.value is not None:
@@ -1482,6 +2347,20 @@ class _Deep:
                 st.orelse = self._block(st.orelse, dict(env))[0]
                 out.append(st)
                 continue
+            if isinstance(st, ast.With) and st.items and isinstance(st.items[0].context_expr, ast.Call) and st.items[0].optional_vars is None \
+                    and self._ext(st.items[0].context_expr.func) == "contextlib.suppress" and not st.items[0].context_expr.keywords \
+                    and all(_pure_simple(a) for a in st.items[0].context_expr.args):
+                # `with suppress(E): BODY` is `try: BODY` / `except E: pass` (what contextlib.suppress is documented to do)
+                excs = st.items[0].context_expr.args
+                inner = st.body if len(st.items) == 1 else [ast.copy_location(ast.With(items=st.items[1:], body=st.body), st)]
+                self.changed = True
+                if not excs:
+                    stmts[i:i] = inner
+                    continue
+                typ = excs[0] if len(excs) == 1 else ast.Tuple(elts=list(excs), ctx=ast.Load())
+                handler = ast.ExceptHandler(type=typ, name=None, body=[ast.Pass()])
+                stmts[i:i] = [ast.fix_missing_locations(ast.copy_location(ast.Try(body=inner, handlers=[handler], orelse=[], finalbody=[]), st))]
+                continue
             if isinstance(st, (ast.With, ast.AsyncWith)):
                 for it in st.items:
                     it.context_expr = self._ex(it.context_expr, env)
@@ -1501,6 +2380,8 @@ class _Deep:
             if isinstance(st, ast.Match):
                 st.subject = self._ex(st.subject, env)
                 chosen = self._match_case(st)
+                if chosen is None:
+                    chosen = self._desugar_match(st)
                 if chosen is not None:
                     self.changed = True
                     stmts[i:i] = chosen
@@ -1520,36 +2401,195 @@ class _Deep:
             out.append(st)
         return out, env
 
+    def _desugar_match(self, st: ast.Match) -> list | None:
+        """the if / elif chain Python executes for a `match` over values / singletons / captures / or-patterns / fixed-length sequence
+        patterns over a tuple display / class patterns over attributes (the subject's parts are evaluated once, first, in order)"""
+        try:
+            from ..normalize import _named_fields, _pattern
+        except ImportError:
+            return None
+        if getattr(self, "_fields", None) is None:
+            self._fields = {}
+            for m in reversed(self._mods()):
+                self._fields.update(_named_fields(m.tree))
+        pre: list = []
+
+        def simple(e: ast.AST) -> ast.AST:
+            if _pure_simple(e) and not isinstance(e, ast.Tuple):
+                return e
+            tmp = self._tmp("m")
+            pre.append(ast.copy_location(ast.Assign(targets=[ast.Name(id=tmp, ctx=ast.Store())], value=e), st))
+            return ast.copy_location(ast.Name(id=tmp, ctx=ast.Load()), e)
+        subj = st.subject
+        if isinstance(subj, ast.Tuple) and not any(isinstance(x, ast.Starred) for x in subj.elts):
+            subj = ast.copy_location(ast.Tuple(elts=[simple(x) for x in subj.elts], ctx=ast.Load()), subj)
+        else:
+            subj = simple(subj)
+        arms = []
+        for c in st.cases:
+            r = _pattern(_cl(c.pattern), subj, self._fields)
+            if r is None:
+                return None
+            cond, caps = r
+            if c.guard is not None and caps:
+                return None
+            if c.guard is not None:
+                cond = c.guard if cond is None else ast.BoolOp(op=ast.And(), values=[cond, c.guard])
+            arms.append((cond, [ast.copy_location(ast.Assign(targets=[ast.Name(id=k, ctx=ast.Store())], value=v), c.body[0]) for k, v in caps] + c.body))
+        chain_: list = []
+        for cond, body in reversed(arms):
+            chain_ = body if cond is None else [ast.copy_location(ast.If(test=cond, body=body, orelse=chain_), st)]
+        out = pre + chain_
+        for x in out:
+            ast.fix_missing_locations(x)
+            for y in ast.walk(x):
+                if isinstance(y, ast.Call) and not hasattr(y, "_stk"):
+                    y._stk = ()
+        return out
+
     def _match_case(self, st: ast.Match) -> list | None:
         """the body selected by a `match` on a constant subject (value / singleton / wildcard patterns only)"""
-        subj = self._const_of(st.subject)
-        sym = self._symbol(st.subject)
-        if subj is _NOCONST and sym is None:
+        if self._const_of(st.subject) is _NOCONST and self._symbol(st.subject) is None:
             return None
 
-        def matches(p) -> bool | None:
+        def matches(p, subject) -> bool | None:
+            subj = self._const_of(subject)
             if isinstance(p, ast.MatchValue):
-                r = self._compare(st.subject, ast.Eq(), p.value)
+                r = self._compare(subject, ast.Eq(), p.value)
                 return r
             if isinstance(p, ast.MatchSingleton):
                 return None if subj is _NOCONST else subj is p.value
             if isinstance(p, ast.MatchAs) and p.pattern is None and p.name is None:
                 return True
             if isinstance(p, ast.MatchOr):
-                rs = [matches(x) for x in p.patterns]
+                rs = [matches(x, subject) for x in p.patterns]
                 if any(r is True for r in rs):
                     return True
                 return None if any(r is None for r in rs) else False
+            if isinstance(p, ast.MatchSequence) and not any(isinstance(x, ast.MatchStar) for x in p.patterns):
+                if not isinstance(subject, (ast.Tuple, ast.List)):
+                    return None if subj is _NOCONST or isinstance(subj, tuple) else False
+                if len(subject.elts) != len(p.patterns):
+                    return False
+                rs = [matches(x, e) for x, e in zip(p.patterns, subject.elts)]
+                if any(r is False for r in rs):
+                    return False
+                return None if any(r is None for r in rs) else True
             return None
         for c in st.cases:
             if c.guard is not None:
                 return None
-            r = matches(c.pattern)
+            r = matches(c.pattern, st.subject)
             if r is None:
                 return None
             if r:
                 return c.body
         return []
+
+
+_STDLIB = ("operator", "functools", "itertools", "contextlib")
+_CALLOBJS = ("operator.attrgetter", "operator.itemgetter", "operator.methodcaller", "functools.partial")
+_OP_COMPARE = {"eq": ast.Eq, "ne": ast.NotEq, "lt": ast.Lt, "le": ast.LtE, "gt": ast.Gt, "ge": ast.GtE, "is_": ast.Is, "is_not": ast.IsNot}
+_OP_BINARY = {"add": ast.Add, "concat": ast.Add, "sub": ast.Sub, "mul": ast.Mult, "and_": ast.BitAnd, "or_": ast.BitOr, "xor": ast.BitXor, "mod": ast.Mod,
+              "floordiv": ast.FloorDiv, "lshift": ast.LShift, "rshift": ast.RShift}
+_PURE_CALLS = ("len", "isinstance", "bool", "tuple", "frozenset", "min", "max", "abs", "int", "bytes")
+_RECORDS: dict[int, tuple] = {}
+_CALLCLASSES: dict[int, tuple] = {}
+
+
+def _is_namedtuple_call(deep, e: ast.Call) -> bool:
+    r = deep._record(e)
+    return r is not None and _is_namedtuple(r[0]) and deep._record_args(e) is not None
+
+
+def _pure_expr(e: ast.AST) -> bool:
+    """evaluating e has no effect and needs nothing but the values of the names in it (no calls but a few builtins)"""
+    for x in ast.walk(e):
+        if isinstance(x, (ast.Await, ast.Yield, ast.YieldFrom, ast.NamedExpr, ast.Lambda, ast.ListComp, ast.SetComp, ast.DictComp, ast.GeneratorExp, ast.Starred)):
+            return False
+        if isinstance(x, ast.Call) and not (isinstance(x.func, ast.Name) and x.func.id in _PURE_CALLS and not x.keywords):
+            return False
+    return True
+
+
+def _is_namedtuple(c) -> bool:
+    return any(b.split(".")[-1] == "NamedTuple" for b in c.base_names)
+
+
+def _is_dataclass(c) -> bool:
+    for d in c.node.decorator_list:
+        f = d.func if isinstance(d, ast.Call) else d
+        if (chain(f) or "").split(".")[-1] == "dataclass":
+            if isinstance(d, ast.Call) and any(k.arg == "init" for k in d.keywords):
+                return False
+            return True
+    return False
+
+
+def _is_frozen(c) -> bool:
+    return any(isinstance(d, ast.Call) and any(k.arg == "frozen" and isinstance(k.value, ast.Constant) and k.value.value is True for k in d.keywords)
+               for d in c.node.decorator_list)
+
+
+def _record_fields(c) -> list[tuple[str, ast.AST | None]] | None:
+    """[(field, default)] in constructor order for a NamedTuple / dataclass that keeps the generated constructor"""
+    nt, dc = _is_namedtuple(c), _is_dataclass(c)
+    if not (nt or dc) or (nt and len(c.base_names) != 1) or (dc and (c.base_names or c.node.keywords)):
+        return None
+    if any(n in c.methods for n in ("__init__", "__new__", "__post_init__", "__getattr__", "__getattribute__", "__getitem__")):
+        return None
+    out = []
+    for st in c.node.body:
+        if isinstance(st, ast.AnnAssign) and isinstance(st.target, ast.Name):
+            if "ClassVar" in ast.unparse(st.annotation):
+                continue
+            if isinstance(st.value, ast.Call):
+                return None                      # field(...) with options
+            out.append((st.target.id, st.value))
+    if not out or any(f in c.methods for f, d in out):
+        return None
+    return out
+
+
+def _stored_params(c) -> dict | None:
+    """{"params": [(parameter, default)], "attrs": {attribute: parameter}} for a class whose constructor only stores its parameters"""
+    init = c.methods.get("__init__")
+    if init is None:
+        fields = _record_fields(c)
+        if fields is None:
+            return None
+        return {"params": fields, "attrs": {f: f for f, d in fields}}
+    a = init.node.args
+    if a.vararg or a.kwarg or a.posonlyargs or init.node.decorator_list or not a.args:
+        return None
+    me = a.args[0].arg
+    pos = [p.arg for p in a.args[1:]]
+    defaults: dict[str, ast.AST | None] = {p: None for p in pos}
+    for p, d in zip(pos[len(pos) - len(a.defaults):] if a.defaults else [], a.defaults):
+        defaults[p] = d
+    if len(a.defaults) > len(pos):
+        return None
+    params = [(p, defaults[p]) for p in pos]
+    for p, d in zip(a.kwonlyargs, a.kw_defaults):
+        params.append((p.arg, d))
+    if any(d is not None and not isinstance(d, ast.Constant) for p, d in params):
+        return None
+    names = {p for p, d in params}
+    attrs: dict[str, str] = {}
+    for st in init.node.body:
+        if _is_doc(st) or isinstance(st, ast.Pass):
+            continue
+        tgt = st.targets[0] if isinstance(st, ast.Assign) and len(st.targets) == 1 else st.target if isinstance(st, ast.AnnAssign) else None
+        val = getattr(st, "value", None)
+        if not (isinstance(tgt, ast.Attribute) and isinstance(tgt.value, ast.Name) and tgt.value.id == me and isinstance(val, ast.Name) and val.id in names
+                and tgt.attr not in attrs):
+            return None
+        attrs[tgt.attr] = val.id
+    # nothing else in the class writes these attributes
+    for name, m in c.methods.items():
+        if name != "__init__" and any(isinstance(x, ast.Attribute) and isinstance(x.ctx, (ast.Store, ast.Del)) for x in ast.walk(m.node)):
+            return None
+    return {"params": params, "attrs": attrs}
 
 
 _STABLE: dict[int, tuple] = {}
@@ -1724,6 +2764,16 @@ def _writes(fi_or_node, table: str) -> list[tuple[ast.AST, ast.AST | None, ast.A
                 out.append((c, None, d, "bulk"))
         elif f.attr in ("pop", "popitem", "clear", "__delitem__"):
             out.append((c, c.args[0] if c.args and f.attr in ("pop", "__delitem__") else None, None, "del"))
+        elif f.attr in ("remove", "discard") and len(c.args) == 1:
+            out.append((c, c.args[0], None, "del"))                  # list / set spelling of `del table[x]`
+        elif f.attr == "popleft" and not c.args:
+            out.append((c, None, None, "del"))
+        elif f.attr in ("append", "appendleft", "add") and len(c.args) == 1 and not c.keywords:
+            out.append((c, c.args[0], None, "add"))                  # un-keyed insertion: the element is its own key
+        elif f.attr == "insert" and len(c.args) == 2 and not c.keywords:
+            out.append((c, c.args[1], None, "add"))
+        elif f.attr == "extend":
+            out.append((c, None, c.args[0] if c.args else None, "bulk"))
         elif f.attr in ("move_to_end",):
             continue
     return out
@@ -1930,7 +2980,8 @@ def rule_verify_before_keep(ctx: Ctx) -> None:
     ctx.anchor(tok, "token parameter of TokenTree.gather_token")
     _undecided_helpers(ctx, fi, ("self.elements", "self.unchained"), entry, tok, report=True)
     ctx.check(not local_defs(fi, tok), "verify-before-keep", fi, fi.node, "token parameter not rebound", "gather_token rebinds the offered token")
-    keep = [(s, k, v) for s, k, v, kind in _writes(fi, "self.unchained") if kind in ("set", "bulk", "rebind")]
+    keep = [(s, k, v) for s, k, v, kind in _writes(fi, "self.unchained") if kind in ("set", "bulk", "rebind", "add")]
+    unkeyed = [s for s, k, v, kind in _writes(fi, "self.unchained") if kind == "add" and not (isinstance(s, ast.Call) and s.func.attr == "add")]
     app = [(s, k, v, kind) for s, k, v, kind in _writes(fi, "self.elements")]
     ctx.floor("verify-before-keep", len(keep) + len(app), 2)
     for s, k, v in keep:
@@ -1938,6 +2989,13 @@ def rule_verify_before_keep(ctx: Ctx) -> None:
         ok = any(f.op == "truthy" and f.pos and _is_verify_call(fi, f.left, tok) for f in fs)
         ctx.check(ok and _x(fi, k) == tok, "verify-before-keep", fi, s, f"`{norm(s)[:50]}` dominated by token.verify(self.public_key)",
                   "a token that is not signed by the tree's key can be kept (waiting area or tree)", [str(f) for f in fs])
+        # a waiting token occupies ONE slot of the bounded area however often it is offered: a store keyed by the token does that by
+        # construction, an un-keyed insertion (list.append / insert / deque.append) only if the token is known not to wait yet
+        once = not any(s is u for u in unkeyed) or any(_membership(fi, f, "self.unchained") == (tok, False) for f in fs)
+        ctx.check(once, "verify-before-keep", fi, s, f"`{norm(s)[:50]}`: a re-offered waiting token is kept once",
+                  f"`{norm(s)[:50]}` keeps a waiting token once more every time it is offered again (the waiting area is no longer keyed by the token): "
+                  "re-deliveries of one dangling token use up the bounded waiting area and push other, distinct waiting tokens out although fewer than "
+                  "unchained_max_size distinct tokens wait - the evicted tokens are never chained, so the tree depends on arrival order", [str(f) for f in fs])
     pk = _ParentKnown(ctx, fi, tok)
     edge = pk.edge_pred(cfg)
     for s, k, v, kind in app:
@@ -1957,15 +3015,23 @@ def rule_verify_before_keep(ctx: Ctx) -> None:
         fresh = any(_membership(fi, f) == (f"{tok}.get_hash()", False) for f in fs) or _absent_by_keyerror(fi, s, f"{tok}.get_hash()")
         if not fresh and any(isinstance(a, ast.ExceptHandler) or (isinstance(a, ast.Try) and any(_inside(s, o) for o in a.orelse)) for a in ancestors(s)):
             raise AnalysisError("undecided: gather_token decides `already contained` through an exception handler")
+        if not fresh and any(isinstance(t, ast.Try) and any("KeyError" in norm(h.type) for h in t.handlers if h.type is not None) and
+                             any(isinstance(x, ast.Subscript) and chain(x.value) == "self.elements" and _x(fi, x.slice) == f"{tok}.get_hash()" for b in t.body for x in ast.walk(b))
+                             for t in ast.walk(fi.node)):
+            raise AnalysisError("undecided: gather_token decides `already contained` by catching the KeyError of a lookup among other statements")
         ctx.check(fresh, "verify-before-keep", fi, s, "token appended only if not contained yet", "a duplicate token replaces the contained one (and its content)",
                   [str(f) for f in fs])
     # bounded waiting area: the oldest waiting token is dropped only when the area exceeds its maximum size
     evict = [c for c in calls(fi, "self.unchained.popitem")]
     ok = bool(evict) and all(const_value(arg(c, 0, "last")) is False for c in evict)
     if not evict:
-        oldest = "next(iter(self.unchained))"
-        evict = [c for c in calls(fi, "self.unchained.pop") if _x(fi, arg(c, 0)) == oldest] + \
-                [s for s, t in stores(fi, "self.unchained[]") if isinstance(s, ast.Delete) and _x(fi, t.slice) == oldest]
+        # a sequence that is appended to at one end: the oldest entry sits at the other end
+        at_front = [u for u in unkeyed if u.func.attr == "appendleft" or (u.func.attr == "insert" and const_value(u.args[0]) == 0)]
+        at_back = [u for u in unkeyed if u.func.attr == "append"]
+        oldest = ["next(iter(self.unchained))"] + (["0"] if unkeyed and len(at_back) == len(unkeyed) else ["-1"] if unkeyed and len(at_front) == len(unkeyed) else [])
+        evict = [c for c in calls(fi, "self.unchained.pop") if (c.args and _x(fi, arg(c, 0)) in oldest) or (not c.args and "-1" in oldest)] + \
+                [s for s, t in stores(fi, "self.unchained[]") if isinstance(s, ast.Delete) and _x(fi, t.slice) in oldest] + \
+                ([c for c in calls(fi, "self.unchained.popleft")] if "0" in oldest else [])
         ok = bool(evict)
     for c in evict:
         exceeded = False
@@ -2155,6 +3221,12 @@ def rule_writers(ctx: Ctx) -> None:
                     return isinstance(e, ast.Call) and call_name(e) == "gather_token" and _x(f2, arg(e, 0, "token")) == tokx
                 gathered = any((f.op == "is" and not f.pos and _is_none(f.right) and _gathered(f.left)) or
                                (f.op == "truthy" and f.pos and _gathered(f.left)) for f in fs)
+                if not gathered:
+                    # EAFP spelling: an attribute of gather_token's result was read (None has none of them) and that statement completed normally
+                    deref = [n for n in cfg.nodes if n.kind in ("stmt", "cond") and n.ast is not None and not isinstance(n.ast, (ast.For, ast.While, ast.With, ast.Try, ast.If))
+                             and any(isinstance(x, ast.Attribute) and isinstance(x.ctx, ast.Load) and not x.attr.startswith("__") and _gathered(x.value) and not expr_context_facts(x)
+                                     for x in walk_no_nested(n.ast))]
+                    gathered = bool(deref) and all(cfg.must_complete(n, deref) for n in cfg.nodes_for(c))
                 made = _expand(f2, arg(c, 1, "token"))
                 own = isinstance(made, ast.Call) and call_name(made) in ("add", "add_by_hash")
                 ctx.check(gathered or own, "writers", f2, c, "token written to the database only after gather_token accepted it (or it was created with the own key)",
@@ -2163,7 +3235,7 @@ def rule_writers(ctx: Ctx) -> None:
     g0 = repo.method("TokenTree", "__init__", TR)
     gi = _view(ctx, g0)
     gh = [s for s, t in stores(gi, "self.genesis_hash")]
-    ok = bool(gh) and all(isinstance(s, (ast.Assign, ast.AnnAssign)) and norm(_sha3_arg(_expand(gi, s.value))) == "self.public_key.key_to_bin()" for s in gh)
+    ok = bool(gh) and all(isinstance(s, (ast.Assign, ast.AnnAssign)) and norm(_hashed(gi, s.value)) == "self.public_key.key_to_bin()" for s in gh)
     ctx.check(ok, "writers", gi, gi.node, "genesis hash = sha3_256(public key)", "the genesis pointer is not the hash of the tree's key")
 
 
@@ -2221,7 +3293,26 @@ def rule_wake_all(ctx: Ctx) -> None:
         if isinstance(n, ast.Compare) and len(n.ops) == 1 and isinstance(n.ops[0], (ast.Eq, ast.NotEq)):
             sides = {_x(fi, n.left), _x(fi, n.comparators[0])}
             cond_ok = cond_ok or any(sides == {f"{v}.previous_token_hash", f"{tok}.get_hash()"} for v in scan_vars)
-    ctx.check(cond_ok, "wake-all", fi, fi.node, "children selected by previous_token_hash == appended.get_hash()", "children are not matched by parent hash")
+    # ... and with the right polarity: what a scan hands on (re-offers / collects) are the tokens whose parent IS the appended token
+    def _is_child_fact(f: Fact, var: str) -> bool:
+        return f.op == "eq" and f.pos and {_x(fi, f.left), _x(fi, f.right)} == {f"{var}.previous_token_hash", f"{tok}.get_hash()"}
+
+    def _selecting(sc) -> bool | None:
+        t = sc.target
+        if chain(_unwrap_iter(fi, sc.iter)) == "self.unchained.items()" and isinstance(t, ast.Tuple) and t.elts:
+            t = t.elts[0]
+        var = norm(t)
+        if isinstance(sc, ast.comprehension):
+            return any(_is_child_fact(f, var) for cnd in sc.ifs for f in _split(cnd, True))
+        uses = [c for c in calls(sc) if isinstance(c.func, ast.Attribute) and any(norm(a) == var for a in c.args) and
+                ((chain(c.func.value) == "self" and c.func.attr in entry) or c.func.attr in ("append", "add", "appendleft"))]
+        if not uses:
+            return None
+        return all(any(_is_child_fact(f, var) for f in _facts(fi, cfg, c)) for c in uses)
+    sel = [r for r in (_selecting(sc) for sc in scans) if r is not None]
+    ctx.check(cond_ok and (not scans or (bool(sel) and all(sel))), "wake-all", fi, fi.node, "children selected by previous_token_hash == appended.get_hash()",
+              "children are not matched by parent hash" if not cond_ok else
+              "the scan of the waiting area hands on the tokens whose parent is NOT the appended token: its waiting children are never woken")
     # every selected token is re-offered through gather_token (full re-check)
     gt = [c for c in calls(fi) if isinstance(c.func, ast.Attribute) and chain(c.func.value) == "self" and c.func.attr in entry]
     ok = bool(gt)
@@ -2362,7 +3453,7 @@ def _init_case(ctx: Ctx, init: FuncInfo, content_none: bool, hash_none: bool) ->
         return True, "raises"
     hs = [(s, val) for s, val in _attr_stores(v, "self.content_hash") if val is not None]
     other = [s for s, val in _attr_stores(v, "self.content_hash") if val is None]
-    derived = [s for s, val in hs if norm(_sha3_arg(_expand(v, val))) == cp]
+    derived = [s for s, val in hs if norm(_hashed(v, val)) == cp]
     given = [s for s, val in hs if _x(v, val) == hp]
     cs = _attr_stores(v, "self.content")
     attach = [(s, val) for s, val in cs if val is not None and not _is_none(_expand(v, val))]
@@ -2387,9 +3478,14 @@ def rule_content(ctx: Ctx) -> None:
         fs = _facts(rc, cfg, s)
         ok = False
         for f in fs:
-            if f.op == "eq" and f.pos:
-                sides = [_expand(rc, x) for x in (f.left, f.right)]
-                if any(norm(_sha3_arg(x)) == c for x in sides) and any(norm(x) == "self.content_hash" for x in sides):
+            pair = (f.left, f.right) if f.op == "eq" and f.pos else None
+            if f.op == "truthy" and f.pos:
+                cd = _expand(rc, f.left)
+                if isinstance(cd, ast.Call) and (chain(cd.func) or "").split(".")[-1] == "compare_digest" and len(cd.args) == 2 and not cd.keywords:
+                    pair = (cd.args[0], cd.args[1])              # hmac.compare_digest(a, b): a == b in constant time
+            if pair is not None:
+                sides = [_expand(rc, x) for x in pair]
+                if any(norm(_hashed(rc, x)) == c for x in pair) and any(norm(x) == "self.content_hash" for x in sides):
                     ok = True
         ctx.check(ok and _x(rc, getattr(s, "value", None)) == c, "content-binding", rc, s, "content attached only if sha3_256(content) == content_hash",
                   "content that does not hash to the token's content pointer can be attached", [str(f) for f in fs])
@@ -2498,6 +3594,10 @@ def _walk_unit(ctx: Ctx, v: FuncInfo) -> tuple[bool, bool] | None:
             if isinstance(b, ast.Break):
                 if any(isinstance(x, ast.Name) and x.id in bounds for f in facts_at(cfg, b) for x in ast.walk(f.atom)):
                     continue                 # leaves the loop because the depth bound is used up: the result is computed after the loop
+                after = cfg.reach([w for n in cfg.nodes_for(b) for w, lab in n.succ if lab != "exc"], follow_exc=False)
+                if not any(n.kind == "stmt" and isinstance(n.ast, ast.Return) and _is_success(n.ast.value) for n in after) and \
+                        not any(isinstance(x, (ast.Yield, ast.YieldFrom)) for x in walk_no_nested(v.node)):
+                    continue                 # gives up: nothing but a failure verdict (False / None / empty) can be returned after it
                 done.append(b)
             elif isinstance(b, ast.Return) and _is_success(b.value):
                 done.append(b)
@@ -2568,25 +3668,88 @@ def _format_parts(e: ast.AST | None) -> tuple[str, str, str] | None:
     return None
 
 
+def _layout_formats(tu: FuncInfo, e: ast.AST | None, key: str, depth: int = 4) -> list[ast.AST] | None:
+    """
+    The struct formats a layout object can have been compiled from: `struct.Struct(fmt)` built here, a local with several reaching
+    definitions of that kind, or an entry of a cache table that is keyed by `key` (the signature length) and only ever filled -
+    in this function - with `table[key] = struct.Struct(<format interpolating key>)`.  None: not a layout built for this key.
+    """
+    if e is None or depth <= 0:
+        return None
+    e = strip_cast(e)
+    if isinstance(e, ast.Name):
+        r = _reaching(tu, e)
+        if r is None:
+            return None
+        out: list[ast.AST] = []
+        for s_, v, k in r:
+            got = _layout_formats(tu, v, key, depth - 1) if v is not None and k is None else None
+            if got is None:
+                return None
+            out.extend(got)
+        return out
+    if isinstance(e, ast.Call) and (chain(e.func) or "").split(".")[-1] == "Struct" and len(e.args) == 1 and not e.keywords:
+        return [_expand(tu, e.args[0])]
+    table = k = None
+    if isinstance(e, ast.Subscript) and isinstance(e.ctx, ast.Load):
+        table, k = e.value, e.slice
+    elif isinstance(e, ast.Call) and isinstance(e.func, ast.Attribute) and e.func.attr in ("get", "setdefault") and e.args and \
+            (len(e.args) == 1 or e.func.attr == "setdefault" or _is_none(e.args[1])):
+        table, k = e.func.value, e.args[0]
+    tname = chain(table) if table is not None else None
+    if tname is None or _x(tu, k) != key:
+        return None
+    last = tname.split(".")[-1]
+    origin = getattr(tu, "origin", tu)
+    for f in tu.module.all_functions:
+        if f.node is origin.node or any(f.node is h.node for h in getattr(tu, "inlined", [])):
+            continue
+        for x in walk_no_nested(f.node):
+            if (isinstance(x, ast.Subscript) and isinstance(x.ctx, (ast.Store, ast.Del)) and (chain(x.value) or "").split(".")[-1] == last) or \
+                    (isinstance(x, ast.Call) and isinstance(x.func, ast.Attribute) and x.func.attr in ("update", "setdefault", "__setitem__", "pop", "clear")
+                     and (chain(x.func.value) or "").split(".")[-1] == last) or \
+                    (isinstance(x, ast.Attribute) and isinstance(x.ctx, (ast.Store, ast.Del)) and x.attr == last):
+                raise AnalysisError(f"undecided: the layout cache `{tname}` read by {tu.qualname} is also written in {f.qualname}")
+    out = []
+    ws = _writes(tu, tname)
+    if not ws:
+        return None
+    for s_, wk, wv, kind in ws:
+        if kind != "set" or wk is None or wv is None or _x(tu, wk) != key:
+            raise AnalysisError(f"undecided: the layout cache `{tname}` is written by `{norm(s_)[:60]}`; cannot tell which layout an entry holds")
+        got = _layout_formats(tu, wv, key, depth - 1)
+        if got is None:
+            return None
+        out.extend(got)
+    return out
+
+
 def _token_layout(tu: FuncInfo, tparams: list[str]) -> int | None:
     """size of the constant part of the struct format Token.unserialize reads at (data, offset): `<prefix>{signature length}s`"""
+    key = f"{tparams[1]}.get_signature_length()"
     for c in calls(tu):
         if call_name(c) != "unpack_from":
             continue
-        recv = _expand(tu, c.func.value) if isinstance(c.func, ast.Attribute) else None
-        if isinstance(recv, ast.Call) and (chain(recv.func) or "").split(".")[-1] == "Struct" and len(recv.args) == 1:
-            fmt, buf, off = recv.args[0], arg(c, 0, "buffer"), arg(c, 1, "offset")          # struct.Struct(fmt).unpack_from(data, offset), built here
-        elif recv is None or chain(recv) == "struct":
-            fmt, buf, off = _expand(tu, arg(c, 0, "format")), arg(c, 1, "buffer"), arg(c, 2, "offset")
+        recv = c.func.value if isinstance(c.func, ast.Attribute) else None
+        if recv is None or chain(_expand(tu, recv)) == "struct":
+            fmts, buf, off = [_expand(tu, arg(c, 0, "format"))], arg(c, 1, "buffer"), arg(c, 2, "offset")
         else:
-            continue                         # a layout object that was not built for this key in this call (e.g. cached on the class)
-        parts = _format_parts(fmt)
-        if parts is None or parts[2] != "s" or parts[1] not in (f"{tparams[1]}.get_signature_length()",) or _x(tu, buf) != tparams[0] or _x(tu, off) != tparams[2]:
-            continue
-        try:
-            return struct.calcsize(parts[0])
-        except struct.error:
-            return None
+            # struct.Struct(fmt).unpack_from(data, offset): built here, or taken from a cache keyed by the signature length
+            fmts, buf, off = _layout_formats(tu, recv, key), arg(c, 0, "buffer"), arg(c, 1, "offset")
+        if not fmts or _x(tu, buf) != tparams[0] or _x(tu, off) != tparams[2]:
+            continue                         # a layout object that was not built for this key (e.g. cached on the class, whatever the key)
+        sizes = set()
+        for fmt in fmts:
+            parts = _format_parts(fmt)
+            if parts is None or parts[2] != "s" or parts[1] != key:
+                sizes.add(None)
+                continue
+            try:
+                sizes.add(struct.calcsize(parts[0]))
+            except struct.error:
+                sizes.add(None)
+        if len(sizes) == 1 and None not in sizes:
+            return sizes.pop()
     return None
 
 
@@ -2595,7 +3758,9 @@ def _built_from_range(up: FuncInfo, coll: ast.AST):
     e = strip_cast(coll)
     while isinstance(e, ast.Call) and isinstance(e.func, ast.Name) and e.func.id in ("list", "tuple") and len(e.args) == 1:
         e = e.args[0]
+    via = None
     if isinstance(e, ast.Name):
+        via = e.id
         ds = local_defs(up, e.id)
         if len(ds) == 1 and ds[0][1] is not None and ds[0][2] is None:
             v = strip_cast(ds[0][1])
@@ -2614,7 +3779,9 @@ def _built_from_range(up: FuncInfo, coll: ast.AST):
                 e = e.args[0]
     if isinstance(e, (ast.ListComp, ast.GeneratorExp)) and len(e.generators) == 1 and not e.generators[0].ifs:
         if isinstance(e, ast.GeneratorExp) and not (isinstance(parent(e), ast.Call) and chain(parent(e).func) in ("list", "tuple")):
-            return None
+            # a lazy stage of a pipeline: read by nothing but the loop that consumes it (which is checked for completeness by the caller)
+            if via is None or sum(1 for n in ast.walk(up.node) if isinstance(n, ast.Name) and n.id == via and isinstance(n.ctx, ast.Load)) != 1:
+                return None
         return _expand(up, e.generators[0].iter), norm(e.generators[0].target), e.elt
     return None
 
@@ -2668,6 +3835,12 @@ def rule_wire(ctx: Ctx) -> None:
                     step = _expand(up, incs[0].value)
                     un = _expand(up, arg(g[0], 0, "token"))
                     loop = wloop
+    if loop is not None and step is None and not isinstance(loop, ast.While):
+        src_it = _expand(up, gen.iter if gen is not None else loop.iter)
+        lib = [x for x in ast.walk(src_it) if isinstance(x, ast.Name) and up.module.imports.get(x.id, ("", None))[0] == "itertools"]
+        if lib:
+            raise AnalysisError(f"undecided: unserialize_public takes the chunk offsets from an itertools pipeline (`{norm(src_it)[:60]}`); "
+                                "which offsets it yields is not derived")
     size_ok = False
     if isinstance(step, ast.BinOp) and isinstance(step.op, ast.Add):
         consts = [repo.resolve_const(up.module, x, up.cls) for x in (step.left, step.right)]
@@ -2699,7 +3872,11 @@ def rule_wire(ctx: Ctx) -> None:
                 every = every and ln not in r and cfg.exit not in r
     elif ok:
         consumer = parent(loop)
-        full = not isinstance(loop, ast.GeneratorExp) or (isinstance(consumer, ast.Call) and chain(consumer.func) in (*_WRAPPERS, "sum", "min", "max"))
+        full = not isinstance(loop, ast.GeneratorExp) or (isinstance(consumer, ast.Call) and (
+            (chain(consumer.func) in (*_WRAPPERS, "sum", "min", "max", "dict") and consumer.args and consumer.args[0] is loop) or
+            ((chain(consumer.func) or "").split(".")[-1] == "reduce" and len(consumer.args) >= 2 and consumer.args[1] is loop) or
+            ((chain(consumer.func) or "").split(".")[-1] == "deque" and consumer.args and consumer.args[0] is loop) or
+            (isinstance(consumer.func, ast.Attribute) and consumer.func.attr == "join" and isinstance(consumer.func.value, ast.Constant))))
         if isinstance(loop, ast.GeneratorExp) and not isinstance(consumer, ast.Call):
             raise AnalysisError("undecided: unserialize_public offers the chunks from a generator whose consumer is not visible")
         every = every and full and len(loop.generators) == 1 and not gen.ifs and _inside(g[0], getattr(loop, "elt", getattr(loop, "value", None)))
@@ -2774,7 +3951,7 @@ def rule_signed_object(ctx: Ctx) -> None:
     gps_ok = bool(gps_rets) and all(_concat(_expand(gps, r.value)) == signed for r in gps_rets)
     ok = False
     for s_, t in stores(hsh, "self._hash"):
-        covered = _sha3_arg(_expand(hsh, getattr(s_, "value", None)))
+        covered = _hashed(hsh, getattr(s_, "value", None))
         ok = ok or _concat(covered) == signed or (norm(covered) == "self.get_plaintext_signed()" and gps_ok)
     ctx.check(ok, "verify-before-keep", hsh, hsh.node, "object hash covers plaintext and signature", "the object hash no longer covers plaintext + signature")
     # identity of a token as a key of the waiting area (an OrderedDict keyed by Token): tokens that differ in their
@@ -2895,6 +4072,12 @@ WITNESSES = [
     {"name": "wake-up appends the waiting children without re-checking them", "file": TR, "rule": "verify-before-keep",
      "old": "            if self.gather_token(retry_token) is None:\n                self._logger.warning(\"Dropped illegal token %s!\", retry_token)",
      "new": "            self._append_chain_reaction_token(retry_token)"},
+    {"name": "waiting area turned into an un-keyed list: every re-delivery of a waiting token takes another slot", "file": TR, "rule": "verify-before-keep",
+     "old": "                self.unchained[token] = None\n                if len(self.unchained) > self.unchained_max_size:\n                    self.unchained.popitem(False)\n",
+     "new": "                self.unchained.append(token)\n                if len(self.unchained) > self.unchained_max_size:\n                    self.unchained.pop(0)\n"},
+    {"name": "wake-up selects the waiting tokens that are NOT children of the appended token", "file": TR, "rule": "wake-all",
+     "old": "                        if lost_token.previous_token_hash == token.get_hash()]",
+     "new": "                        if lost_token.previous_token_hash != token.get_hash()]"},
     {"name": "walk verifies only every other token", "file": TR, "rule": "wire-chunks",
      "old": "            current = self.elements[current.previous_token_hash]\n            steps += 1\n        return steps < maxdepth",
      "new": "            current = self.elements[current.previous_token_hash]\n            if current.previous_token_hash in self.elements:\n"
